@@ -18,7 +18,8 @@ Lemma accept_sound_partial_all :
        forall e, In e es ->
          validate_basic e = true /\ is_committed (n_pool n) e = false /\
          ((sound cid (n_chain n) e /\ ~ expired (p_state (n_pool n)) (e_height e) (e_time e)) \/
-          (exists x, In x (p_pending (n_pool n)) /\ ekey x = ekey e /\ sound cid (n_chain n) x))).
+          (exists x, In x (p_pending (n_pool n)) /\ ekey x = ekey e /\ sound cid (n_chain n) x /\
+                     is_expired (p_state (n_pool n)) (e_height e) (e_time e) = false))).
 Proof.
   intros cid n0 ops n obs Hi Hok Hr.
   destruct (run_inv cid ops n0 n obs Hi Hok Hr) as [Hn _].
@@ -44,5 +45,6 @@ Qed.
 
 Lemma source_constants_all :
   default_max_age_num_blocks = 100000 /\ default_max_age_duration = 172800000000000 /\
-  default_proposal_pending_cap = default_evidence_max_bytes / max_evidence_bytes_denominator / max_evidence_bytes.
+  default_proposal_pending_cap = default_evidence_max_bytes / max_evidence_bytes_denominator /\
+  default_proposal_evidence_count = default_proposal_pending_cap / max_evidence_bytes.
 Proof. repeat split. Qed.
